@@ -53,7 +53,7 @@ def sv_normalize(
     bpm_dom = override_bpm if override_bpm else dominant_bpm(m)
 
     # Retrieve the bpm DataFrame to find the relative normalization necessary
-    df_bpm = m.bpms.df
+    df_bpm = m.bpms.df.copy()
 
     # Calculate multiplier necessary
     df_bpm["multiplier"] = bpm_dom / df_bpm["bpm"]
